@@ -249,3 +249,44 @@ Lemma q_refuted_without_erase :
   q_stale (qrun false [QAccept 7; QQueue 7; QClose 7; QAccept 7; QQueue 7; QFlush 7]) = 1
   /\ q_deliv (qrun false [QAccept 7; QQueue 7; QClose 7; QAccept 7; QQueue 7; QFlush 7]) = [(2, 1); (2, 2)].
 Proof. vm_compute. split; reflexivity. Qed.
+
+(* ---- files queued for a connection are closed with it ---- *)
+Definition finv (s : fstate) : Prop := forall fd, f_files s fd = count_true (f_queue s fd).
+
+Lemma count_true_app l b : count_true (l ++ [b]) = count_true l + (if b then 1 else 0).
+Proof. unfold count_true. rewrite filter_app, app_length. destruct b; cbn; lia. Qed.
+
+Lemma fstep_inv s e : finv s -> finv (fstep true s e).
+Proof.
+  intros H. destruct e as [fd b|fd|fd]; cbn [fstep].
+  - intros g. cbn [f_queue f_files]. destruct (Nat.eq_dec g fd) as [->|Hn].
+    + rewrite qupd_same, count_true_app. destruct b; [rewrite qupd_same|]; rewrite H; lia.
+    + rewrite qupd_other by exact Hn. destruct b; [rewrite qupd_other by exact Hn|]; apply H.
+  - destruct (f_queue s fd) as [|b r] eqn:E; [exact H|]. intros g. cbn [f_queue f_files].
+    destruct (Nat.eq_dec g fd) as [->|Hn].
+    + rewrite qupd_same. pose proof (H fd) as Hf. rewrite E in Hf. unfold count_true in *. destruct b; cbn [filter length] in Hf.
+      * rewrite qupd_same, Hf. reflexivity.
+      * exact Hf.
+    + rewrite qupd_other by exact Hn. destruct b; [rewrite qupd_other by exact Hn|]; apply H.
+  - intros g. cbn [f_queue f_files]. destruct (Nat.eq_dec g fd) as [->|Hn].
+    + rewrite !qupd_same, H. cbn. lia.
+    + rewrite !qupd_other by exact Hn. apply H.
+Qed.
+
+Lemma frun_inv h : finv (frun true h).
+Proof.
+  unfold frun. assert (G : forall s, finv s -> finv (fold_left (fstep true) h s)).
+  { induction h as [|e h IH]; intros s H; [exact H|]. cbn [fold_left]. apply IH, fstep_inv, H. }
+  apply G. intros fd. reflexivity.
+Qed.
+
+(* the open files of a connection are exactly the files still queued for it; none once its queue is empty or dropped *)
+Lemma files_are_the_queued_ones h fd : f_files (frun true h) fd = count_true (f_queue (frun true h) fd).
+Proof. apply frun_inv. Qed.
+
+Lemma no_file_left_after_drop h fd : f_files (fstep true (frun true h) (FDrop fd)) fd = 0.
+Proof. cbn [fstep f_files]. rewrite qupd_same, (frun_inv h fd). lia. Qed.
+
+(* the pinned code (files closed only when sent completely): an aborted transfer leaks its file *)
+Lemma file_leaks_without_close_on_drop : f_files (frun false [FQueue 7 false; FQueue 7 true; FSent 7; FDrop 7]) 7 = 1.
+Proof. vm_compute. reflexivity. Qed.
